@@ -137,20 +137,33 @@ def run_property(prop, tier, base_seed, jobs=None, n_cases=None, only_seeds=None
     env["PYTHONPATH"] = os.pathsep.join([REPO, VERIF, DEPS])
     env["PYTHONDONTWRITEBYTECODE"] = "1"
     timeout = getattr(mod, "TIMEOUT", {"quick": 900, "thorough": 4 * 3600})[tier]
+    import tempfile
     procs = []
     for ch in chunks:
+        # worker output goes to temp files (not pipes): a pipe that fills up would block the worker until the
+        # parent gets round to reading it, which serialises the workers
+        fo = tempfile.TemporaryFile(mode="w+", prefix="rv-out-")
+        fe = tempfile.TemporaryFile(mode="w+", prefix="rv-err-")
         p = subprocess.Popen([PYTHON, "-m", "rv.core", "--worker", prop, tier] + [str(s) for s in ch],
-                             stdout=subprocess.PIPE, stderr=subprocess.PIPE, env=env, cwd=VERIF, text=True)
-        procs.append((p, ch))
+                             stdout=fo, stderr=fe, env=env, cwd=VERIF, text=True)
+        procs.append((p, ch, fo, fe))
     results, worker_errors = [], []
     deadline = t0 + timeout
-    for p, ch in procs:
+    for p, ch, fo, fe in procs:
+        timed_out = False
         try:
-            out, err = p.communicate(timeout=max(1, deadline - time.time()))
+            p.wait(timeout=max(1, deadline - time.time()))
         except subprocess.TimeoutExpired:
             p.kill()
-            out, err = p.communicate()
+            p.wait()
+            timed_out = True
             worker_errors.append("watchdog: worker exceeded %ds" % timeout)
+        fo.seek(0)
+        out = fo.read()
+        fe.seek(0)
+        err = fe.read()
+        fo.close()
+        fe.close()
         got = 0
         for line in out.splitlines():
             line = line.strip()
@@ -160,7 +173,7 @@ def run_property(prop, tier, base_seed, jobs=None, n_cases=None, only_seeds=None
                     got += 1
                 except ValueError:
                     pass
-        if got != len(ch) and not (worker_errors and worker_errors[-1].startswith("watchdog")):
+        if got != len(ch) and not timed_out:
             worker_errors.append("worker returned %d/%d cases rc=%s stderr=%s" % (got, len(ch), p.returncode, err[-1500:]))
     return aggregate(prop, tier, base_seed, mod, results, worker_errors, time.time() - t0, quiet=quiet)
 
